@@ -203,6 +203,9 @@ def merge(programs, run_recs):
                 runs.append({"dom": cfg["dom"], "err": 0, "judgeinv": 0 if cfg.get("use_refined") else 1,
                              "pre": r["pre"], "post": r["post"], "checks": r["checks"],
                              "cfg": {k2: v2 for k2, v2 in cfg.items() if k2 != "dom"}})
+                for k2 in ("rq_pre", "rq_post", "tq_pre", "tq_post"):  # C15: answers to reference queries
+                    if k2 in r:
+                        runs[-1][k2] = r[k2]
         q["runs"] = runs
         out.append(q)
     return out
